@@ -25,6 +25,19 @@ def configs(P, rng):
         cs.append({"name": "compiled all brie", "args": ["-j1"], "compile": True, "transform": (lambda P_: requal(P_, {n: "brie" for n in names})), "repr": "brie"})
     return cs
 
+def _rels_in(x):
+    """all relation names mentioned anywhere in a body (atoms, negations, aggregate bodies)"""
+    out = set()
+    if isinstance(x, dict):
+        if x.get("k") in ("atom", "neg") and "rel" in x:
+            out.add(x["rel"])
+        for v in x.values():
+            out |= _rels_in(v)
+    elif isinstance(x, list):
+        for v in x:
+            out |= _rels_in(v)
+    return out
+
 def known_sig(desc, P, case, cfg, o):
     vals = str(case and case.get("edb")) + str(case and case.get("model"))
     if cfg.get("repr") == "brie" and cfg.get("compile") and ("-2147483648" in vals or "-1" in vals):
@@ -32,12 +45,26 @@ def known_sig(desc, P, case, cfg, o):
     # interpreter: a lookup on an eqrel relation with a column bound to MIN answers as if the column were unbound
     # (EquivalenceRelation::lower_bound takes MIN_RAM_SIGNED for "unbound"): only unexpected extra tuples, only in the
     # relations of the eqrel-lookup family whose bound value can be MIN
-    if not cfg.get("compile") and P.get("min_lookup_rels") and "-2147483648" in vals and o is not None and o.outputs:
+    if not cfg.get("compile") and "-2147483648" in vals and o is not None and o.outputs:
         exp = case["model"]
         from ..common import canon
         bad = [r for r in exp if o.outputs.get(r) is not None and sorted(canon(t) for t in exp[r]) != o.outputs[r]]
-        if bad and all(r in P["min_lookup_rels"] for r in bad):
+        if bad and P.get("min_lookup_rels") and all(r in P["min_lookup_rels"] for r in bad):
             return "interpreter-eqrel-min-sentinel"
+        # the same defect reached by a generated program: some relation is eqrel, every deviating relation is an eqrel
+        # relation or is derived (transitively) from one, and it deviates only by unexpected extra tuples
+        eq = {r["name"] for r in P["rels"] if r.get("eqrel") or "eqrel" in (r.get("quals") or [])}
+        if bad and eq:
+            dep = set(eq); changed = True
+            while changed:
+                changed = False
+                for c in P["clauses"]:
+                    h = c["head"]["rel"]
+                    if h not in dep and any(x in dep for x in _rels_in(c["body"])):
+                        dep.add(h); changed = True
+            extra_only = all(set(canon(t) for t in exp[r]) <= set(o.outputs[r]) for r in bad)
+            if extra_only and all(r in dep for r in bad):
+                return "interpreter-eqrel-min-sentinel"
     return None
 
 def eqrel_lookup_program(rng, idx):
